@@ -68,7 +68,7 @@ CHECKS = {
    note="Exploration; three well-conditioned system classes named in the property.",
    technique="TLC-enumerated configuration space + harness-measured residual; TLA+ AMEn sweep calculus, accuracy ledger (ResTrunc, Converged) and restarted-GMRES / BiCGSTAB automaton (spec/Krylov.tla) with TLC trace validation of hook-recorded sweeps and local solves"),
  "C13": dict(level=EX, design="§6 C13",
-   text="TLC enumerates the division configurations (form x structure x ranks x eps x starting-tensor mode x seed) from spec/Configs.tla; q*y is compared densely with x (<= 50*eps_solver), operands (incl. an aliased or reused starting tensor) must be unchanged, x/scalar exact.",
+   text="TLC enumerates the division configurations (form x structure x ranks x eps x starting-tensor mode x seed) from spec/Configs.tla; q*y is compared densely with x (<= 10*eps_solver), operands (incl. an aliased or reused starting tensor) must be unchanged, x/scalar exact.",
    note="Exploration; divisors y = 1 + z*z bounded away from zero.",
    technique="TLC-enumerated configuration space + harness-measured q*y = x; TLC trace validation of the recorded amen_divide sweeps and local GMRES calls"),
  "C14": dict(level=MC, design="§6 C14",
